@@ -3,6 +3,8 @@ import random
 from common import *
 from gen_nums import *
 from c06 import run_stream
+from gen_prog import *
+from execlib import *
 
 CORPUS = [((1, 1), (3, 1)), ((2, 1), (7, 2)), ((1, 2), (1, 3)), ((-1, 2), (-1, 3)), ((5, 7), (10, 14)), ((1, 0), (1, 1)), ((1, 1), (-1, 0)),
           ((1, 0), (-1, 0)), ((0, 1), (0, 5)), ((1 << 32, 1), ((1 << 32) + 1, 1)), ((1, 1 << 32), (1, (1 << 32) + 1)), ((-(1 << 64), 3), (-(1 << 64) - 1, 3))]
@@ -25,10 +27,38 @@ def main(tier, seed):
             k = a.split(" ")[0]
             out[k] = out.get(k, 0) + 1
             rep.nontrivial(o)
+        # the branch rule ("consequently"): a value v is prepared on stack 3, then `흑` with d dots copies it onto
+        # stack d and its area `?`/`!` compares the copy with the count d (one syllable x d dots); the two hearts
+        # are different labels, so the trace shows which way the walk went. Real execute_one vs the definition.
+        def prep(kind, d):
+            """commands leaving v on top of stack 3: integers around d, fractions d +- 1/2, negatives, NaN"""
+            if kind == "int": return [push(rng.choice([d - 1, d, d + 1, 0, 2 * d]))]
+            if kind == "neg": return [push(rng.choice([1, d, d + 1])), (3, 1, 9, None)]
+            if kind == "nan": return [push(7), push(0), (4, 1, 9, None)]                 # 1/0 on a non-empty stack
+            if kind == "empty": return []                                                # pop from the empty stack: NaN
+            num = rng.choice([2 * d - 1, 2 * d + 1, 2 * d, 1])                           # num/2
+            return [push(num), push(2), (4, 1, 9, None), (2, 2, 3, None)]
+        bcases = []
+        for _ in range(400 if tier == "quick" else 6000):
+            d = rng.choice([4, 5, 6, 7, 9])
+            hl, hr = rng.sample(range(2, 13), 2)
+            op = rng.choice([0, 1])
+            area = (op, leaf(hl), leaf(hr)) if rng.random() < 0.7 else (0, (1, leaf(hl), leaf(hr)), leaf(rng.choice([2, 3]))) if op == 0 else (1, leaf(hl), (0, leaf(hr), None))
+            p = prep(rng.choice(["int", "int", "frac", "frac", "neg", "nan", "empty"]), d) + [(5, 1, d, area)]
+            bcases.append("one %s - 50" % enc_prog(p))
+        bi = impl_exec(bcases); bs = model_exec(bcases, spec=True); bm = model_exec(bcases)
+        for c, a, sdef, m in zip(bcases, bi, bs, bm):
+            if unjudged(a, sdef, m): continue
+            rep.count("branch-rule")
+            if a != sdef:
+                rep.violation("impl-vs-spec", {"what": "a ?/! branch is not taken according to the numeric order", "case": c, "impl": a[:600], "definition": sdef[:600], "match_key": "branch " + c})
+            elif a != m:
+                rep.violation("correspondence", {"what": "branch trace differs from the model", "case": c, "impl": a[:600], "model": m[:600]})
+            rep.nontrivial(c)
         rep.sample({"op": ops[len(CORPUS)], "impl": impl[len(CORPUS)]})
         rep.sample({"op": ops[1], "impl": impl[1]})
         extra = {"outcomes": out}
     else:
         extra = {}
-    return rep.finish(extra, rule="ordered pairs of rationals (equal values, values differing only in denominator, neighbours, opposite signs, multi-limb, NaN either/both sides); every pair is non-trivial; distinct by op line",
-                      assumptions=["program-level branch choice (? / !) is covered by C01's traces and theorems"])
+    return rep.finish(extra, rule="ordered pairs of rationals (equal values, values differing only in denominator, neighbours, opposite signs, multi-limb, NaN either/both sides); every pair is non-trivial; distinct by op line; branch rule: prepared values (integers around the count, halves, negatives, NaN from 1/0 and from an empty stack) compared by `?`/`!` (also nested) in real execute_one traces vs the definition",
+                      assumptions=["the full program-level semantics of areas is C01's; here only the branch rule on prepared values"])
